@@ -273,7 +273,12 @@ CGEN_FUNCTIONS = ["constmap.c:hash:C_cm_hash", "cdb_hash.c:cdb_hash", "cdb_unpac
                   # negative code; eofdie = the program's read function exits at end of input): the two SMTP DATA codecs, the SMTP reply
                   # parser, the netstring length parser
                   "qmail-remote.c:blast:C_rblast", "qmail-smtpd.c:put:C_sput", "qmail-smtpd.c:blast:C_sblast:eofdie",
-                  "qmail-remote.c:get:C_rget:eofdie", "qmail-remote.c:smtpcode:C_smtpcode:eofdie", "qmail-qmtpd.c:getlen:C_getlen:eofdie"]
+                  "qmail-remote.c:get:C_rget:eofdie", "qmail-remote.c:smtpcode:C_smtpcode:eofdie", "qmail-qmtpd.c:getlen:C_getlen:eofdie",
+                  # a substdio* / struct qmail* parameter as a stream (substdio_puts = the C string at the argument): the report writers of
+                  # qmail-rspawn and qmail-lspawn, safeput() of received.c, the queue file name formatter
+                  "qmail-rspawn.c:report:C_rreport", "qmail-lspawn.c:report:C_lreport", "received.c:safeput:C_safeput", "fmtqfn.c:fmtqfn",
+                  "qmail-rspawn.c:report:K_rreport:chk", "qmail-lspawn.c:report:K_lreport:chk", "received.c:issafe:K_issafe:chk",
+                  "received.c:safeput:K_safeput:chk", "fmtqfn.c:fmtqfn:K_fmtqfn:chk"]
 
 def gen_params(srcdir):
     r = run([sys.executable, os.path.join(VERIF, "tools", "extract_params.py"), srcdir])
